@@ -253,7 +253,13 @@ def _check_type_requirements_for_field(
     if not type_ir.has_field("atomic_type"):
         return
 
-    if field.type.has_field("atomic_type"):
+    size_bounds = field.location.size.type.integer
+    # An unbounded size can only come from a zero-width integer (`UInt:0`), which
+    # is reported as its own error; there is no field size to compare with.
+    if field.type.has_field("atomic_type") and not (
+        size_bounds.minimum_value == "-infinity"
+        or size_bounds.maximum_value == "infinity"
+    ):
         field_min_size = (
             int(field.location.size.type.integer.minimum_value)
             * type_definition.addressable_unit
